@@ -30,6 +30,7 @@ RULE = ('one evaluation = one seeded run: a single-client sequence of 10-120 Deq
         'deque with the same maxlen; non-trivial = at least 5 calls / a context switch; distinct = SHA-256 of program or event log')
 RULE += ' ' + "Sequences on a Deque obtained from a FanoutCache / DjangoCache also contain the parent's own clear / expire / cull / evict / set / delete calls."
 RULE += ' ' + "The parent's calls include looking the same name up again with another maxlen; in 40 % of the runs with a parent the name holds ':' '*' '?' '|' '/' and sibling objects under colliding spellings hold marker items."
+RULE += ' ' + 'Sequences include removals and changes made through a second live handle on the directory.'
 ASSUMPTIONS = ['values compare by == as collections.deque does; NaN values are not used']
 PROBES = ('own_temporary_directory', 'lifecycle', 'maxlen_discard', 'from_fanout', 'from_django', 'parent_calls', 'named_with_special_characters', 'changed_through_another_handle', 'lock_wait')
 TECHNIQUE = 'deterministic simulation (seeded file/temp names, simulated processes) + differential testing against collections.deque; seeded schedules + linearizability for concurrent use'
